@@ -89,6 +89,7 @@ class Ctx:
         self.in_final = False     # inside a `finally` block / __exit__ / a helper called from there
         self.pure_env = False     # inside a helper that syntactically only reads/writes os.environ and locals
         self.top_stmts = ()
+        self.node = None          # AST of the function being translated (for the uses-are-benign test)
 
     def with_subst(self, extra, round):
         s = dict(self.subst)
@@ -96,6 +97,7 @@ class Ctx:
         c = Ctx(self.fn, self.prefix, self.tracked, s, self.stack, round, self.ret_loc, self.inst, self.bindable)
         c.rets, c.yield_body = self.rets, self.yield_body
         c.in_final, c.pure_env = self.in_final, self.pure_env
+        c.node = self.node
         c.parent = self
         return c
 
@@ -128,6 +130,13 @@ class Translator:
                 for a in n.names:
                     if a.name == 'environ':
                         self.environ_names.add(a.asname or 'environ')
+        self.up = {}                # id(node) -> parent node
+        for p in ast.walk(self.tree):
+            for c in ast.iter_child_nodes(p):
+                self.up[id(c)] = p
+        self.modconsts = self.module_constants()
+        self._counts = {}
+        self.unrolling = set()      # ids of the For nodes whose unrolled copies are being translated
         self.nid = 0
         self.meta = {}
         self.unsupported = []
@@ -188,7 +197,7 @@ class Translator:
         return False
 
     def mentions_environ(self, node):
-        return any(self.is_environ(n) or self.is_os_call(n, ('putenv', 'unsetenv')) for n in ast.walk(node))
+        return any(self.is_environ(n) or self.is_os_call(n, ('putenv', 'unsetenv', 'getenv')) for n in ast.walk(node))
 
     def is_cm_generator(self, fn):
         for d in getattr(fn, 'decorator_list', []):
@@ -207,6 +216,8 @@ class Translator:
             if isinstance(n, ast.Call) and id(n) not in in_raise:
                 if isinstance(n.func, ast.Attribute) and self.is_environ(n.func.value):
                     continue
+                if self.is_os_call(n, ('getenv',)):
+                    continue
                 if isinstance(n.func, ast.Name) and n.func.id in self.readers:
                     continue
                 if isinstance(n.func, ast.Attribute) and n.func.attr in STRMETH:
@@ -215,6 +226,12 @@ class Translator:
             if isinstance(n, (ast.Yield, ast.YieldFrom, ast.Await)):
                 return False
         return True
+
+    @staticmethod
+    def is_view_call(n):
+        """<local name>.items() / .keys() / .values() / .get(..): reads of a local dict of saved values"""
+        return isinstance(n, ast.Call) and isinstance(n.func, ast.Attribute) and isinstance(n.func.value, ast.Name) \
+            and n.func.attr in ('items', 'keys', 'values', 'get') and not n.keywords and len(n.args) <= 1
 
     def syntactic_pure_env(self, fn, seen=()):
         """body = os.environ reads/writes, local assignments, if / for, return, calls of other such helpers -
@@ -226,18 +243,232 @@ class Translator:
                               ast.BinOp, ast.AugAssign, ast.Yield, ast.YieldFrom, ast.Await)):
                 return False
             if isinstance(n, ast.Attribute) and not self.is_environ(n) and not self.is_environ(n.value) \
-                    and not (isinstance(n.value, ast.Name) and n.value.id == 'self'):
+                    and not (isinstance(n.value, ast.Name) and n.value.id == 'self') \
+                    and not (self.is_view_call(self.up.get(id(n))) and self.up[id(n)].func is n):
                 return False
-            if isinstance(n, ast.Subscript) and not self.is_environ(n.value):
-                return False
+            if isinstance(n, ast.Subscript) and not self.is_environ(n.value) \
+                    and not (isinstance(n.value, ast.Name) and isinstance(n.ctx, ast.Load)):
+                return False                  # (reading an entry of a local dict / tuple of saved values is fine)
             if isinstance(n, ast.Call):
                 if isinstance(n.func, ast.Attribute) and self.is_environ(n.func.value):
+                    continue
+                if self.is_view_call(n) or self.is_os_call(n, ('getenv',)):
                     continue
                 if isinstance(n.func, ast.Name) and n.func.id in self.funcs and \
                         self.syntactic_pure_env(self.funcs[n.func.id], seen + (fn.name,)):
                     continue
                 return False
         return True
+
+    # ------------------------------------------------------------ module-level constants, uses of a name
+    @staticmethod
+    def literal(v):
+        """('const', s) / ('tuple', [...]) for a string literal / a tuple or list display of such literals"""
+        if isinstance(v, ast.Constant) and isinstance(v.value, str):
+            return ('const', v.value)
+        if isinstance(v, (ast.Tuple, ast.List)) and v.elts:
+            vs = [Translator.literal(e) for e in v.elts]
+            if all(x is not None for x in vs):
+                return ('tuple', vs)
+        return None
+
+    def module_constants(self):
+        """names bound exactly once in the whole module, by a module-level assignment of a string literal or of a
+        tuple / list display of string literals (nested displays allowed).  Any other binding occurrence of the
+        name anywhere in the file (assignment, parameter, loop / with / except / import target, def, global)
+        disqualifies it; a list additionally must only be iterated over or tested with `in` (nobody can have
+        mutated it).  Rebinding from another module is outside what the translator can see (trusted)."""
+        bound = {}
+
+        def bump(nm):
+            bound[nm] = bound.get(nm, 0) + 1
+        for n in ast.walk(self.tree):
+            if isinstance(n, ast.Name) and not isinstance(n.ctx, ast.Load):
+                bump(n.id)
+            elif isinstance(n, ast.arg):
+                bump(n.arg)
+            elif isinstance(n, ast.ExceptHandler) and n.name:
+                bump(n.name)
+            elif isinstance(n, ast.alias):
+                bump((n.asname or n.name).split('.')[0])
+            elif isinstance(n, (ast.FunctionDef, ast.AsyncFunctionDef, ast.ClassDef)):
+                bump(n.name)
+            elif isinstance(n, (ast.Global, ast.Nonlocal)):
+                for nm in n.names:
+                    bump(nm)
+            elif isinstance(n, (ast.MatchAs, ast.MatchStar)) and n.name:
+                bump(n.name)
+            elif isinstance(n, ast.MatchMapping) and n.rest:
+                bump(n.rest)
+        out = {}
+        self.namedtuples = {}
+        for s in self.tree.body:
+            if isinstance(s, ast.Assign) and len(s.targets) == 1 and isinstance(s.targets[0], ast.Name):
+                nm, v = s.targets[0].id, s.value
+            elif isinstance(s, ast.AnnAssign) and isinstance(s.target, ast.Name) and s.value is not None:
+                nm, v = s.target.id, s.value
+            else:
+                continue
+            # N = namedtuple('N', ('a', 'b')) / 'a b' / 'a, b'  (no defaults, no rename): an immutable record type
+            if isinstance(v, ast.Call) and len(v.args) == 2 and not v.keywords and bound.get(nm) == 1 and \
+                    ((isinstance(v.func, ast.Name) and v.func.id == 'namedtuple' and bound.get('namedtuple', 0) == 1) or
+                     (isinstance(v.func, ast.Attribute) and v.func.attr == 'namedtuple'
+                      and isinstance(v.func.value, ast.Name) and v.func.value.id == 'collections')):
+                fl = self.literal(v.args[1])
+                fields = None
+                if fl is not None and fl[0] == 'const':
+                    fields = fl[1].replace(',', ' ').split()
+                elif fl is not None and all(x[0] == 'const' for x in fl[1]):
+                    fields = [x[1] for x in fl[1]]
+                if fields and len(set(fields)) == len(fields) and all(f.isidentifier() and not f.startswith('_')
+                                                                      for f in fields):
+                    self.namedtuples[nm] = fields
+                continue
+            lit = self.literal(v)
+            if lit is None or bound.get(nm) != 1:
+                continue
+            if any(isinstance(x, ast.List) for x in ast.walk(v)) and not self.only_iterated(self.tree, nm):
+                continue
+            out[nm] = lit
+        return out
+
+    def only_iterated(self, root, name):
+        """every use of the name under root is `for .. in name`, a comprehension over it, or `x in name`"""
+        for n in ast.walk(root):
+            if isinstance(n, ast.Name) and n.id == name and isinstance(n.ctx, ast.Load):
+                p = self.up.get(id(n))
+                if isinstance(p, (ast.For, ast.comprehension)) and p.iter is n:
+                    continue
+                if isinstance(p, ast.Compare) and len(p.ops) == 1 and isinstance(p.ops[0], (ast.In, ast.NotIn)) \
+                        and p.comparators[0] is n:
+                    continue
+                return False
+        return True
+
+    VIEWS = ('items', 'keys', 'values', 'get', 'copy')
+    WRAPPERS = ('list', 'tuple', 'dict', 'sorted', 'reversed', 'len', 'iter')
+
+    def benign_uses(self, root, name, skip=None):
+        """every use of the (mutable: list / dict) value bound to the name under root is one that cannot change it:
+        iteration, `.items()/.keys()/.values()/.get()/.copy()`, a subscript read, `in`, list()/tuple()/dict()/sorted()/
+        reversed()/len(), an argument of a same-module function that is inlined (its parameter is tested again
+        there) or of os.environ.update, `return name`"""
+        if root is None:
+            return False
+        for n in ast.walk(root):
+            if not (isinstance(n, ast.Name) and n.id == name) or n is skip:
+                continue
+            if isinstance(n.ctx, ast.Store):
+                continue                      # the callers make sure there is exactly one binding of the name
+            if not isinstance(n.ctx, ast.Load):
+                return False
+            p = self.up.get(id(n))
+            if isinstance(p, (ast.For, ast.comprehension)) and p.iter is n:
+                continue
+            if isinstance(p, ast.Attribute) and p.value is n and p.attr in self.VIEWS:
+                pp = self.up.get(id(p))
+                if isinstance(pp, ast.Call) and pp.func is p:
+                    continue
+            if isinstance(p, ast.Subscript) and p.value is n and isinstance(p.ctx, ast.Load):
+                continue
+            if isinstance(p, ast.Compare) and len(p.ops) == 1 and isinstance(p.ops[0], (ast.In, ast.NotIn)) \
+                    and p.comparators[0] is n:
+                continue
+            if isinstance(p, ast.Call) and n in p.args:
+                if isinstance(p.func, ast.Name) and (p.func.id in self.WRAPPERS or
+                                                     (p.func.id in self.inlinable and p.func.id in self.funcs)):
+                    continue
+                if isinstance(p.func, ast.Attribute) and self.is_environ(p.func.value) and p.func.attr == 'update':
+                    continue
+            if isinstance(p, ast.Return) and p.value is n:
+                continue
+            return False
+        return True
+
+    def iter_values(self, e, ctx):
+        """the element values an iteration over the expression yields, when the translator knows them: a literal
+        tuple / list, a name bound to one (locally or at module level), a known dict (its keys),
+        `<known dict>.items() / .keys() / .values()`, and list() / tuple() / reversed() / sorted() of these"""
+        if isinstance(e, ast.Call) and not e.keywords:
+            if isinstance(e.func, ast.Attribute) and e.func.attr in ('items', 'keys', 'values') and not e.args:
+                d = self.value_of(e.func.value, ctx, []) if isinstance(e.func.value, ast.Name) else OPAQUE
+                if d[0] != 'dict':
+                    return None
+                if e.func.attr == 'items':
+                    return [('tuple', [('const', k), v]) for k, v in d[1]]
+                return [('const', k) if e.func.attr == 'keys' else v for k, v in d[1]]
+            if isinstance(e.func, ast.Name) and e.func.id in ('list', 'tuple', 'reversed', 'sorted') and len(e.args) == 1 \
+                    and e.func.id not in ctx.subst and e.func.id not in ctx.tracked:
+                vs = self.iter_values(e.args[0], ctx)
+                if vs is None:
+                    return None
+                if e.func.id == 'reversed':
+                    return vs[::-1]
+                if e.func.id == 'sorted':
+                    def key(v):
+                        return v[1] if v[0] == 'const' else \
+                            (v[1][0][1] if v[0] == 'tuple' and v[1] and v[1][0][0] == 'const' else None)
+                    ks = [key(v) for v in vs]
+                    if any(k is None for k in ks) or len(set(ks)) != len(ks):
+                        return None
+                    return [v for _, v in sorted(zip(ks, vs), key=lambda kv: kv[0])]
+                return vs
+            return None
+        if isinstance(e, (ast.Name, ast.Tuple, ast.List)):
+            v = self.value_of(e, ctx, [])
+            if v[0] == 'tuple':
+                return list(v[1])
+            if v[0] == 'dict':
+                return [('const', k) for k, _ in v[1]]
+            if v[0] == 'record':
+                return [w for _, w in v[1]]
+        return None
+
+    def struct_lookup(self, n, ctx):
+        """value of `d[k]` / `d.get(k)` for a known dict d and a constant key it has, of `t[i]` for a known tuple"""
+        if isinstance(n, ast.Attribute) and isinstance(n.value, ast.Name) and isinstance(n.ctx, ast.Load):
+            d = ctx.subst.get(n.value.id)             # <record>.field of a known namedtuple instance
+            if d is not None and d[0] == 'record':
+                for kk, v in d[1]:
+                    if kk == n.attr:
+                        return v
+            return None
+        if isinstance(n, ast.Subscript) and isinstance(n.value, ast.Name) and isinstance(n.ctx, ast.Load):
+            base, key = n.value, n.slice
+        elif isinstance(n, ast.Call) and isinstance(n.func, ast.Attribute) and n.func.attr == 'get' \
+                and isinstance(n.func.value, ast.Name) and len(n.args) == 1 and not n.keywords:
+            base, key = n.func.value, n.args[0]
+        else:
+            return None
+        d = ctx.subst.get(base.id)
+        if d is None:
+            d = self.modconsts.get(base.id) if base.id not in ctx.tracked else None
+        if d is None:
+            return None
+        if d[0] == 'dict':
+            k = self.const(key, ctx)
+            for kk, v in d[1]:
+                if kk == k:
+                    return v
+        if d[0] in ('tuple', 'record') and isinstance(n, ast.Subscript) and isinstance(key, ast.Constant) \
+                and isinstance(key.value, int) and not isinstance(key.value, bool) \
+                and -len(d[1]) <= key.value < len(d[1]):
+            return d[1][key.value] if d[0] == 'tuple' else d[1][key.value][1]
+        return None
+
+    @staticmethod
+    def make_dict(pairs):
+        """('dict', ...) with the semantics of a Python dict display: a repeated key keeps its first position and
+        takes the last value"""
+        out = []
+        for k, v in pairs:
+            for i, (kk, _) in enumerate(out):
+                if kk == k:
+                    out[i] = (k, v)
+                    break
+            else:
+                out.append((k, v))
+        return ('dict', out)
 
     def attr_key(self, n, ctx):
         """'self.attr' for an attribute of the context-manager instance being inlined"""
@@ -252,6 +483,13 @@ class Translator:
             return n.value
         if isinstance(n, ast.Name) and n.id in ctx.subst and ctx.subst[n.id][0] == 'const':
             return ctx.subst[n.id][1]
+        if isinstance(n, ast.Name) and n.id not in ctx.subst and n.id not in ctx.tracked \
+                and self.modconsts.get(n.id, OPAQUE)[0] == 'const':
+            return self.modconsts[n.id][1]
+        if isinstance(n, (ast.Subscript, ast.Call, ast.Attribute)) and self.attr_key(n, ctx) is None:
+            v = self.struct_lookup(n, ctx)
+            if v is not None and v[0] == 'const':
+                return v[1]
         a = self.attr_key(n, ctx)
         if a is not None and ctx.inst['consts'].get(a, OPAQUE)[0] == 'const':
             return ctx.inst['consts'][a][1]
@@ -275,6 +513,9 @@ class Translator:
         a = self.attr_key(n, ctx)
         if a is not None:
             return ctx.inst['prefix'] + a if a in ctx.inst['tracked'] else None
+        if isinstance(n, (ast.Subscript, ast.Call, ast.Attribute)):
+            v = self.struct_lookup(n, ctx)
+            return v[1] if v is not None and v[0] == 'loc' else None
         if not isinstance(n, ast.Name):
             return None
         if n.id in ctx.subst:
@@ -308,15 +549,44 @@ class Translator:
                 return ('save', c)
             if v.func.attr == 'pop' and len(v.args) == 2 and dflt_none:
                 return ('popsave', c)
+            if v.func.attr == 'pop' and len(v.args) == 1:
+                return ('popneed', c)
+        if self.is_os_call(v, ('getenv',)) and not v.keywords and 1 <= len(v.args) <= 2:
+            c = self.const(v.args[0], ctx)        # os.getenv(NAME[, None]) is os.environ.get(NAME[, None])
+            if c is not None and (len(v.args) == 1 or (isinstance(v.args[1], ast.Constant) and v.args[1].value is None)):
+                return ('save', c)
         return None
 
-    def is_env_read_shape(self, v):
+    @staticmethod
+    def bind_env(x, ev):
+        """IR of `x = <environment read ev>`:  os.environ[c] = load;  .get(c) = save;  .pop(c, None) = save + pop
+        (never raises);  .pop(c) = load + del (MutableMapping.pop: value = self[c] raises KeyError when unset,
+        nothing deleted; then del self[c])"""
+        kind, c = ev
+        if kind == 'load':
+            return [['load', x, c]]
+        if kind == 'save':
+            return [['save', x, c]]
+        if kind == 'popsave':
+            return [['save', x, c], ['pop', c]]
+        assert kind == 'popneed', ev
+        return [['load', x, c], ['del', c]]
+
+    def is_env_read_shape(self, v, _seen=()):
         """syntactically: os.environ[...] / os.environ.get(...) / .pop(...) / call of a read-only helper"""
         if isinstance(v, ast.Subscript) and self.is_environ(v.value):
             return True
         if isinstance(v, ast.Call) and isinstance(v.func, ast.Attribute) and self.is_environ(v.func.value) \
                 and v.func.attr in ('get', 'pop'):
             return True
+        if self.is_os_call(v, ('getenv',)):
+            return True
+        if isinstance(v, ast.Call) and isinstance(v.func, ast.Name) and v.func.id in self.writers \
+                and v.func.id in self.funcs and v.func.id not in _seen:
+            # an environment-writing helper that hands back what it read: `return os.environ.pop(name)`
+            return any(isinstance(r, ast.Return) and r.value is not None
+                       and self.is_env_read_shape(r.value, _seen + (v.func.id,))
+                       for r in ast.walk(self.funcs[v.func.id]))
         return isinstance(v, ast.Call) and isinstance(v.func, ast.Name) and v.func.id in self.readers
 
     def tracked_names(self, fn):
@@ -328,6 +598,46 @@ class Translator:
                     out.add(tg[0].id)
         return out
 
+    def store_count(self, fn, name):
+        """number of binding occurrences of the name in the function (99 for a parameter / global / nonlocal)"""
+        if fn is None:
+            return 99
+        key = id(fn)
+        if key not in self._counts:
+            count = {}
+
+            def bump(nm, k=1):
+                count[nm] = count.get(nm, 0) + k
+            for n in ast.walk(fn):
+                if isinstance(n, ast.Name) and not isinstance(n.ctx, ast.Load):
+                    bump(n.id)
+                elif isinstance(n, ast.arg):
+                    bump(n.arg, 99)
+                elif isinstance(n, (ast.Global, ast.Nonlocal)):
+                    for nm in n.names:
+                        bump(nm, 99)
+                elif isinstance(n, ast.ExceptHandler) and n.name:
+                    bump(n.name)
+                elif isinstance(n, ast.alias):
+                    bump((n.asname or n.name).split('.')[0])
+                elif isinstance(n, (ast.FunctionDef, ast.AsyncFunctionDef, ast.ClassDef)) and n is not fn:
+                    bump(n.name)
+            self._counts[key] = count
+        return self._counts[key].get(name, 0)
+
+    def alias_position(self, n, ctx):
+        """the statement runs unconditionally once its block is entered, and a binding made for it cannot leak to code
+        that may run without it: top level of the function, body of a loop that is being unrolled (binding scoped to
+        the round), a `finally` block (binding scoped to the block)"""
+        p = self.up.get(id(n))
+        if p is ctx.node:
+            return n in p.body
+        if isinstance(p, ast.For):
+            return n in p.body and id(p) in self.unrolling
+        if isinstance(p, ast.Try):
+            return n in p.finalbody
+        return False
+
     def bindable_names(self, fn):
         """names assigned exactly once in the function, by a top-level statement of its body"""
         count = {}
@@ -337,11 +647,20 @@ class Translator:
             if isinstance(n, (ast.Global, ast.Nonlocal)):
                 for nm in n.names:
                     count[nm] = 99
+            if isinstance(n, ast.ExceptHandler) and n.name:
+                count[n.name] = count.get(n.name, 0) + 1
+            if isinstance(n, ast.alias):
+                nm = (n.asname or n.name).split('.')[0]
+                count[nm] = count.get(nm, 0) + 1
         top = set()
         for s in fn.body:
             if isinstance(s, ast.Assign) and len(s.targets) == 1 and isinstance(s.targets[0], ast.Name):
                 top.add(s.targets[0].id)
+            if isinstance(s, ast.Assign) and len(s.targets) == 1 and isinstance(s.targets[0], (ast.Tuple, ast.List)) \
+                    and all(isinstance(e, ast.Name) for e in s.targets[0].elts):
+                top |= {e.id for e in s.targets[0].elts}
         params = {a.arg for a in fn.args.args + fn.args.kwonlyargs + fn.args.posonlyargs}
+        params |= {a.arg for a in (fn.args.vararg, fn.args.kwarg) if a is not None}
         return {k for k in top if count.get(k) == 1 and k not in params}
 
     # ------------------------------------------------------------ bookkeeping
@@ -406,30 +725,90 @@ class Translator:
             if e.id in ctx.subst:
                 return ctx.subst[e.id]
             y = self.loc(e, ctx)
-            return ('loc', y) if y else OPAQUE
+            if y:
+                return ('loc', y)
+            if e.id in self.modconsts and e.id not in ctx.tracked:
+                return self.modconsts[e.id]
+            return OPAQUE
         if self.attr_key(e, ctx) is not None:
             y = self.loc(e, ctx)
             return ('loc', y) if y else OPAQUE
+        sl = self.struct_lookup(e, ctx)
+        if sl is not None:
+            return sl
         ev = self.env_value(e, ctx)
-        if ev and ev[0] in ('load', 'save'):
+        if ev:
             x = self.fresh_loc(ctx, 'saved')
-            pre.append([ev[0], x, ev[1]])
+            pre.extend(self.bind_env(x, ev))
             return ('loc', x)
         if isinstance(e, (ast.Tuple, ast.List)):
             vs = [self.value_of(x, ctx, pre) for x in e.elts]
             return ('tuple', vs)
-        if isinstance(e, (ast.ListComp, ast.GeneratorExp)) and len(e.generators) == 1 and not e.generators[0].ifs \
-                and not e.generators[0].is_async:
+        if isinstance(e, ast.Dict):
+            if any(k is None for k in e.keys):
+                return OPAQUE
+            pairs = []
+            for k, v in zip(e.keys, e.values):            # a dict display evaluates key, value, key, value, ...
+                kc = self.const(k, ctx)
+                if kc is None:
+                    return OPAQUE
+                pairs.append((kc, self.value_of(v, ctx, pre)))
+            return self.make_dict(pairs)
+        if isinstance(e, (ast.ListComp, ast.GeneratorExp, ast.DictComp)) and len(e.generators) == 1 \
+                and not e.generators[0].ifs and not e.generators[0].is_async:
             g = e.generators[0]
-            it = self.value_of(g.iter, ctx, []) if isinstance(g.iter, (ast.Name, ast.Tuple, ast.List)) else OPAQUE
-            if it[0] == 'tuple':
+            it = self.iter_values(g.iter, ctx)
+            if it is not None:
                 out = []
-                for v in it[1]:
+                for v in it:
                     b = self.bind_target(g.target, v)
                     if b is None:
                         return OPAQUE
-                    out.append(self.value_of(e.elt, ctx.with_subst(b, ctx.round), pre))
-                return ('tuple', out)
+                    c2 = ctx.with_subst(b, ctx.round)
+                    if isinstance(e, ast.DictComp):
+                        kc = self.const(e.key, c2)
+                        if kc is None:
+                            return OPAQUE
+                        out.append((kc, self.value_of(e.value, c2, pre)))
+                    else:
+                        out.append(self.value_of(e.elt, c2, pre))
+                return self.make_dict(out) if isinstance(e, ast.DictComp) else ('tuple', out)
+        if isinstance(e, ast.Call) and isinstance(e.func, ast.Name) and e.func.id in self.namedtuples \
+                and not any(isinstance(a, ast.Starred) for a in e.args) and all(k.arg is not None for k in e.keywords):
+            fields = self.namedtuples[e.func.id]
+            given = dict(zip(fields, e.args))
+            ok = len(e.args) <= len(fields)
+            for k in e.keywords:
+                ok = ok and k.arg in fields and k.arg not in given
+                given[k.arg] = k.value
+            if ok and set(given) == set(fields):
+                # arguments are evaluated in the order written: positional, then keywords
+                vals = {f: self.value_of(a, ctx, pre) for f, a in given.items()}
+                return ('record', [(f, vals[f]) for f in fields])
+            return OPAQUE
+        if isinstance(e, ast.Call) and isinstance(e.func, ast.Name) and e.func.id in ('dict', 'list', 'tuple') \
+                and e.func.id not in ctx.subst and e.func.id not in ctx.tracked \
+                and not any(isinstance(a, ast.Starred) for a in e.args) and all(k.arg is not None for k in e.keywords):
+            # dict(<pairs>) / dict(<known dict>) / dict(A=..., B=...) / list(<known>) / tuple(<known>)
+            if e.func.id == 'dict' and len(e.args) <= 1:
+                pairs = []
+                if e.args:
+                    a = self.value_of(e.args[0], ctx, pre)
+                    if a[0] == 'dict':
+                        pairs = list(a[1])
+                    elif a[0] == 'tuple' and all(w[0] == 'tuple' and len(w[1]) == 2 and w[1][0][0] == 'const' for w in a[1]):
+                        pairs = [(w[1][0][1], w[1][1]) for w in a[1]]
+                    else:
+                        return OPAQUE
+                for k in e.keywords:
+                    pairs.append((k.arg, self.value_of(k.value, ctx, pre)))
+                return self.make_dict(pairs)
+            if e.func.id in ('list', 'tuple') and len(e.args) == 1 and not e.keywords:
+                a = self.value_of(e.args[0], ctx, pre)
+                if a[0] == 'tuple':
+                    return a
+                if a[0] == 'dict':
+                    return ('tuple', [('const', k) for k, _ in a[1]])
         return OPAQUE
 
     @staticmethod
@@ -440,6 +819,8 @@ class Translator:
         if isinstance(tg, (ast.Tuple, ast.List)) and all(isinstance(x, ast.Name) for x in tg.elts):
             if v[0] == 'tuple' and len(v[1]) == len(tg.elts):
                 return {x.id: w for x, w in zip(tg.elts, v[1])}
+            if v[0] == 'record' and len(v[1]) == len(tg.elts):
+                return {x.id: w for x, (_, w) in zip(tg.elts, v[1])}
         return None
 
     @staticmethod
@@ -447,6 +828,8 @@ class Translator:
         """is the value worth binding (contains a constant or a saved location)"""
         if v[0] in ('const', 'loc', 'none'):
             return True
+        if v[0] in ('dict', 'record'):
+            return len(v[1]) > 0 and all(Translator.known(w) for _, w in v[1])
         return v[0] == 'tuple' and len(v[1]) > 0 and all(Translator.known(w) for w in v[1])
 
     # ------------------------------------------------------------ expressions
@@ -461,6 +844,11 @@ class Translator:
             return
         if self.attr_key(n, ctx) is not None and isinstance(n.ctx, ast.Load):
             return                      # attribute of the inlined instance: a plain slot
+        if t in (ast.Subscript, ast.Call, ast.Attribute) and self.struct_lookup(n, ctx) is not None:
+            return                      # entry of a dict / tuple / record the translator knows: a plain slot
+        if t is ast.Call and isinstance(n.func, ast.Name) and n.func.id == 'dict' and len(n.args) == 1 \
+                and not n.keywords and self.is_environ(n.args[0]):
+            return                      # dict(os.environ): a copy, like os.environ.copy()
         if t is ast.Subscript and self.is_environ(n.value):
             if not isinstance(n.ctx, ast.Load):
                 self.unsup(n, ctx, 'environment write in an unsupported position')
@@ -482,10 +870,25 @@ class Translator:
                 return
             if m in READERS:
                 return
-            self.unsup(n, ctx, 'os.environ.%s(...) in an unsupported position' % m)
+            if m == 'pop' and acc.get('popok'):
+                return                  # the whole expression has a value known to value_of, which has turned every
+                #                         pop in it (comprehension variable already bound) into save/load + pop/del
+            why = {'clear': ' (removes every variable: no finite list of touched variables)',
+                   'popitem': ' (removes an arbitrary variable)',
+                   'update': ' (only as a statement, with a literal mapping / keywords / a dict the translator knows)',
+                   'setdefault': ' (only as a statement or the whole value of an assignment, with a literal name)',
+                   'pop': ' (only as a statement or the whole value of an assignment / return / known display element)',
+                   }.get(m, '')
+            self.unsup(n, ctx, 'os.environ.%s(...) in an unsupported position%s' % (m, why))
             return
         if self.is_os_call(n, ('putenv', 'unsetenv')):
             self.unsup(n, ctx, 'os.putenv/os.unsetenv')
+            return
+        if self.is_os_call(n, ('getenv',)):
+            for a in list(n.args) + [k.value for k in n.keywords]:
+                self.scan(a, ctx, acc, cond)
+            if not (n.args and self.const(n.args[0], ctx) is not None):
+                acc['risky'] = True
             return
         if t is ast.Compare and len(n.ops) == 1 and isinstance(n.ops[0], (ast.In, ast.NotIn)) \
                 and self.is_environ(n.comparators[0]):
@@ -566,6 +969,7 @@ class Translator:
         fn = self.funcs[name]
         ctx = Ctx(name, '', self.tracked_names(fn), {}, (name,), bindable=self.bindable_names(fn))
         ctx.top_stmts = fn.body
+        ctx.node = fn
         self.check_function(fn, ctx)
         return self.block(fn.body, ctx)
 
@@ -593,8 +997,14 @@ class Translator:
                 continue                      # reassigned in the callee: not a fixed value
             if p in given:
                 out[p] = self.value_of(given[p], ctx, pre)
+                if out[p][0] in ('dict', 'tuple') and not self.benign_uses(fn, p):
+                    out[p] = OPAQUE           # the callee may change the dict / list it is given
             elif p in defaults:
                 out[p] = self.value_of(defaults[p], Ctx(fn.name, '', set(), {}, ()), [])
+        va = fn.args.vararg
+        if va is not None and va.arg not in stored:
+            # def f(*names) called as f('A', 'B'): names is the tuple of the remaining positional arguments
+            out[va.arg] = ('tuple', [self.value_of(a, ctx, pre) for a in call.args[len(params):]])
         return out
 
     def serial(self, fn):
@@ -616,6 +1026,7 @@ class Translator:
                 bindable=self.bindable_names(fn))
         c.yield_body = yield_body
         c.top_stmts = fn.body
+        c.node = fn
         c.in_final = ctx.in_final or qual.endswith('.__exit__')
         c.pure_env = self.syntactic_pure_env(fn)
         self.check_function(fn, c, allow_yield=yield_body is not None)
@@ -657,7 +1068,7 @@ class Translator:
         out += [['need', v] for v in acc['needs']] + pre + [body]
         if bind_name is not None:
             v = c.rets[0] if len(c.rets) == 1 and self.single_final_return(fn) else OPAQUE
-            if self.known(v):
+            if self.known(v) and (v[0] not in ('tuple', 'dict') or self.benign_uses(ctx.node, bind_name)):
                 ctx.root().subst[bind_name] = v
                 ctx.subst[bind_name] = v
         return out
@@ -714,10 +1125,79 @@ class Translator:
             if len(v.args) == 1:
                 return [['del', c]]
             return self.simple(n, ctx, [v.args[1]], envwrite=True) + [['pop', c]]
+        w = self.env_write_call(v, n, ctx)
+        if w is not None:
+            return w
         inl = self.call_stmt(v, n, ctx)
         if inl is not None:
             return inl
         return self.simple(n, ctx, [v]) + self.kills(n, ctx)
+
+    def set_var(self, c, vexpr, n, ctx):
+        """IR of os.environ[c] = <vexpr> once vexpr has been evaluated (its fault point is the caller's business)"""
+        y = self.loc(vexpr, ctx)
+        if y:
+            return ['setFrom', c, y]
+        return ['setExpr', c, self.newid('value', n, ctx)]
+
+    def env_write_call(self, v, n, ctx):
+        """os.environ.setdefault(NAME, value) / os.environ.update(<literal mapping>, NAME=value, ...) as a statement
+        (or as the value of an assignment whose target is handled by the caller); None when v is not such a call"""
+        if not (isinstance(v, ast.Call) and isinstance(v.func, ast.Attribute) and self.is_environ(v.func.value)):
+            return None
+        m = v.func.attr
+        if m == 'setdefault' and not v.keywords and 1 <= len(v.args) <= 2 and not isinstance(v.args[0], ast.Starred):
+            c = self.const(v.args[0], ctx)
+            if c is None:
+                self.unsup(n, ctx, 'os.environ.setdefault of a computed variable name')
+                return [['fault', self.newid('fault', n, ctx)]]
+            if len(v.args) == 1:
+                # setdefault(NAME) = setdefault(NAME, None): nothing when set, TypeError (nothing written) when unset
+                return [['ifSet', c, ['skip'], ['raise']]]
+            # the default is evaluated first; then: nothing if NAME is set, os.environ[NAME] = default otherwise
+            return self.simple(n, ctx, [v.args[1]], envwrite=True) + \
+                [['ifSet', c, ['skip'], self.set_var(c, v.args[1], n, ctx)]]
+        if m == 'update' and len(v.args) <= 1 and not any(isinstance(a, ast.Starred) for a in v.args) \
+                and all(k.arg is not None for k in v.keywords):
+            # MutableMapping.update: the items of the mapping in its order, then the keywords, one
+            # os.environ[NAME] = value each (a value that is not a string stops it half way, as in the IR)
+            items, exprs = [], []
+            if v.args:
+                a = v.args[0]
+                if isinstance(a, ast.Dict) and all(k is not None for k in a.keys):
+                    for k, e in zip(a.keys, a.values):
+                        items.append((self.const(k, ctx), e))
+                        exprs.append(e)
+                elif isinstance(a, (ast.Tuple, ast.List)) and all(isinstance(e, (ast.Tuple, ast.List)) and len(e.elts) == 2
+                                                                  for e in a.elts):
+                    for e in a.elts:
+                        items.append((self.const(e.elts[0], ctx), e.elts[1]))
+                        exprs.append(e.elts[1])
+                else:
+                    d = self.value_of(a, ctx, []) if isinstance(a, ast.Name) else OPAQUE
+                    if d[0] != 'dict' or not all(w[0] in ('loc', 'const') for _, w in d[1]):
+                        self.unsup(n, ctx, 'os.environ.update with an argument that is not a literal mapping or a dict '
+                                           'of saved values the translator knows')
+                        return [['fault', self.newid('fault', n, ctx)]]
+                    for k, w in d[1]:
+                        items.append((k, w))
+            for k in v.keywords:
+                items.append((k.arg, k.value))
+                exprs.append(k.value)
+            if any(c is None for c, _ in items):
+                self.unsup(n, ctx, 'os.environ.update with a computed variable name')
+                return [['fault', self.newid('fault', n, ctx)]]
+            out = self.simple(n, ctx, exprs, envwrite=True)
+            if v.args and isinstance(v.args[0], ast.Dict):
+                nd = len(v.args[0].keys)                          # a dict display: a repeated key keeps its first
+                items = list(self.make_dict(items[:nd])[1]) + items[nd:]   # position and takes the last value
+            for c, e in items:
+                if isinstance(e, tuple):                          # a value the translator knows
+                    out.append(['setFrom', c, e[1]] if e[0] == 'loc' else ['setExpr', c, self.newid('value', n, ctx)])
+                else:
+                    out.append(self.set_var(c, e, n, ctx))
+            return out
+        return None
 
     def s_Assign(self, n, ctx, targets=None, value=None):
         targets = n.targets if targets is None else targets
@@ -728,11 +1208,7 @@ class Translator:
             if x:
                 ev = self.env_value(value, ctx)
                 if ev:
-                    if ev[0] == 'load':
-                        return [['load', x, ev[1]]]
-                    if ev[0] == 'save':
-                        return [['save', x, ev[1]]]
-                    return [['save', x, ev[1]], ['pop', ev[1]]]
+                    return self.bind_env(x, ev)
                 if isinstance(value, ast.Constant) and value.value is None:
                     return [['setNone', x]]
                 bind = t.id if (isinstance(t, ast.Name) and t.id in ctx.bindable and ctx.root() is ctx
@@ -764,17 +1240,70 @@ class Translator:
                 inl = self.call_stmt(value, n, ctx, bind_name=t.id)
                 if inl is not None:
                     return inl
-                if isinstance(value, (ast.Tuple, ast.List, ast.ListComp)):
-                    acc = {'risky': False, 'needs': []}
-                    self.scan(value, ctx, acc)
+                if isinstance(value, (ast.Tuple, ast.List, ast.ListComp, ast.Dict, ast.DictComp)) or \
+                        (isinstance(value, ast.Call) and isinstance(value.func, ast.Name)
+                         and (value.func.id in ('dict', 'list', 'tuple') or value.func.id in self.namedtuples)):
+                    n_unsup = len(self.unsupported)
                     pre = []
                     v = self.value_of(value, ctx, pre)
-                    if self.known(v) and v[0] == 'tuple':
-                        ctx.subst[t.id] = v
-                        return pre
+                    # a tuple display / namedtuple is immutable; a list / dict must not be changed between here and its uses
+                    frozen = isinstance(value, ast.Tuple) or v[0] == 'record' or self.benign_uses(ctx.node, t.id, skip=t)
+                    if self.known(v) and v[0] in ('tuple', 'dict', 'record') and frozen:
+                        self.scan(value, ctx, {'risky': False, 'needs': [], 'popok': True})
+                        if len(self.unsupported) == n_unsup:
+                            ctx.subst[t.id] = v
+                            return pre
+                        del self.unsupported[n_unsup:]
+        if len(targets) == 1 and isinstance(targets[0], ast.Name) and targets[0].id not in ctx.subst \
+                and targets[0].id not in ctx.tracked and isinstance(value, (ast.Name, ast.Subscript, ast.Attribute, ast.Call)) \
+                and self.attr_key(value, ctx) is None and self.store_count(ctx.node, targets[0].id) == 1 \
+                and self.alias_position(n, ctx):
+            # value = saved[name] / pair[1] / record.field / another such name: a second name for a saved value
+            # (only for values that are never rebound: constants, None, the translator's own snapshot locations)
+            v = ctx.subst.get(value.id) if isinstance(value, ast.Name) else self.struct_lookup(value, ctx)
+            if v is not None and (v[0] in ('const', 'none') or (v[0] == 'loc' and '#' in v[1])):
+                ctx.subst[targets[0].id] = v
+                return []
+        if len(targets) == 1 and isinstance(targets[0], (ast.Tuple, ast.List)) and ctx.root() is ctx \
+                and n in ctx.top_stmts and all(isinstance(e, ast.Name) and e.id in ctx.bindable and e.id not in ctx.tracked
+                                               for e in targets[0].elts) \
+                and len({e.id for e in targets[0].elts}) == len(targets[0].elts) \
+                and isinstance(value, (ast.Tuple, ast.List, ast.ListComp, ast.GeneratorExp, ast.Call)):
+            # a, b = os.environ.get('A'), os.environ.get('B')  /  = [os.environ.get(n) for n in NAMES]  /  = <record>:
+            # every name is assigned here and nowhere else, so it stands for the value from here on
+            n_unsup = len(self.unsupported)
+            pre = []
+            v = self.value_of(value, ctx, pre)
+            b = self.bind_target(targets[0], v) if self.known(v) else None
+            if b is not None:
+                self.scan(value, ctx, {'risky': False, 'needs': [], 'popok': True})
+                if len(self.unsupported) == n_unsup:
+                    ctx.subst.update(b)
+                    return pre
+                del self.unsupported[n_unsup:]
         for t in targets:
             if self.mentions_environ(t):
                 self.unsup(n, ctx, 'environment write in an unsupported assignment form')
+        # x = os.environ.pop(NAME[, default]) / .setdefault(NAME, v) / .update(...) with a target that is not a
+        # saving local (or a default that is not None): the effect on the environment, then an opaque binding
+        w = None
+        if isinstance(value, ast.Call) and isinstance(value.func, ast.Attribute) and self.is_environ(value.func.value) \
+                and not any(self.mentions_environ(t) for t in targets):
+            if value.func.attr == 'pop' and not value.keywords and 1 <= len(value.args) <= 2 \
+                    and self.const(value.args[0], ctx) is not None:
+                c = self.const(value.args[0], ctx)
+                w = [['del', c]] if len(value.args) == 1 else \
+                    self.simple(n, ctx, [value.args[1]], envwrite=True) + [['pop', c]]
+            else:
+                w = self.env_write_call(value, n, ctx)
+        if w is not None:
+            unpack = any(not isinstance(t, ast.Name) and self.attr_key(t, ctx) is None for t in targets)
+            w = w + self.simple(n, ctx, [t for t in targets if not isinstance(t, (ast.Name, ast.Tuple, ast.List))
+                                        and self.attr_key(t, ctx) is None], force=unpack)
+            kl = []
+            for t in targets:
+                kl += self.stored(t, ctx)
+            return w + self.kills(n, ctx, sorted(set(kl)))
         inl = self.call_stmt(value, n, ctx) if self.inlinable_call(value, ctx) is not None \
             and self.inlinable_call(value, ctx).name in self.writers else None
         unpack = any(not isinstance(t, ast.Name) and self.attr_key(t, ctx) is None for t in targets)
@@ -835,16 +1364,16 @@ class Translator:
             return ([['setNone', ctx.ret_loc]] if ctx.ret_loc else []) + [['ret']]
         if ctx.ret_loc:
             pre = []
-            val = self.value_of(v, ctx, pre) if isinstance(v, (ast.Tuple, ast.List, ast.ListComp, ast.GeneratorExp)) else OPAQUE
-            if self.known(val) and val[0] == 'tuple':
-                acc = {'risky': False, 'needs': []}
-                self.scan(v, ctx, acc)
+            val = self.value_of(v, ctx, pre) if isinstance(v, (ast.Tuple, ast.List, ast.ListComp, ast.GeneratorExp,
+                                                               ast.Dict, ast.DictComp)) else OPAQUE
+            if self.known(val) and val[0] in ('tuple', 'dict'):
+                self.scan(v, ctx, {'risky': False, 'needs': [], 'popok': True})
                 root.rets.append(val)
                 return pre + [['ret']]
             ev = self.env_value(v, ctx)
-            if ev and ev[0] in ('load', 'save'):
+            if ev:
                 root.rets.append(OPAQUE)
-                return [[ev[0], ctx.ret_loc, ev[1]], ['ret']]
+                return self.bind_env(ctx.ret_loc, ev) + [['ret']]
             inl = self.call_stmt(v, n, ctx, ret_loc=ctx.ret_loc)
             if inl is not None:
                 root.rets.append(OPAQUE)
@@ -860,11 +1389,15 @@ class Translator:
         if ctx.inst is not None and isinstance(v, ast.Name) and v.id == ctx.inst['self']:
             root.rets.append(OPAQUE)
             return [['ret']]
+        ev = self.env_value(v, ctx)
+        if ev and ev[0] in ('popsave', 'popneed'):       # the value goes somewhere untracked, the effect stays
+            root.rets.append(OPAQUE)
+            return self.bind_env(self.fresh_loc(ctx, 'popped'), ev) + [['ret']]
         pre = []
         val = self.value_of(v, ctx, pre)
-        if self.known(val) and val[0] == 'tuple':
-            acc = {'risky': False, 'needs': []}
-            self.scan(v, ctx, acc)           # records unsupported uses; the reads themselves are in `pre`
+        if self.known(val) and val[0] in ('tuple', 'dict'):
+            # records unsupported uses; the reads (and pops) themselves are in `pre`
+            self.scan(v, ctx, {'risky': False, 'needs': [], 'popok': True})
             root.rets.append(val)
             return pre + [['ret']]
         root.rets.append(val if self.known(val) else OPAQUE)
@@ -952,14 +1485,15 @@ class Translator:
                 if acc['risky'] or acc['needs']:
                     return None
             it = self.value_of(n.iter, ctx, [])
-        elif isinstance(n.iter, ast.Name) and n.iter.id in ctx.subst:
-            it = ctx.subst[n.iter.id]
+            it = it[1] if it[0] == 'tuple' else None
         else:
-            return None
-        if it[0] != 'tuple':
+            # a name bound to a known tuple / list / dict (locally, by a parameter, at module level),
+            # <known dict>.items() / .keys() / .values(), list() / tuple() / reversed() / sorted() of these
+            it = self.iter_values(n.iter, ctx)
+        if it is None:
             return None
         rounds = []
-        for v in it[1]:
+        for v in it:
             b = self.bind_target(tg, v)
             if b is None:
                 return None
@@ -970,8 +1504,14 @@ class Translator:
         rounds = self.unroll_values(n, ctx)
         if rounds is not None:
             out = []
-            for r in rounds:
-                out.append(self.block(n.body, ctx.with_subst(r, (ctx.fn, n.body[0].lineno, self.serial(n)))))
+            outer = id(n) in self.unrolling
+            self.unrolling.add(id(n))
+            try:
+                for r in rounds:
+                    out.append(self.block(n.body, ctx.with_subst(r, (ctx.fn, n.body[0].lineno, self.serial(n)))))
+            finally:
+                if not outer:
+                    self.unrolling.discard(id(n))
             return out + [self.block(n.orelse, ctx)]
         pre = self.simple(n, ctx, [n.iter], force=True)
         lid = self.newid('loop', n, ctx, body_line=n.body[0].lineno)
@@ -983,7 +1523,26 @@ class Translator:
         body = seq(self.simple(n, ctx, [n.test], force=True) + [self.block(n.body, ctx)])
         return [['loop', lid, body]] + self.simple(n, ctx, [n.test], force=True) + [self.block(n.orelse, ctx)]
 
+    def get_idiom(self, n, ctx):
+        """try: x = os.environ[NAME]  except KeyError: x = None   (nothing else)  is  x = os.environ.get(NAME)"""
+        if len(n.body) != 1 or len(n.handlers) != 1 or n.orelse or n.finalbody:
+            return None
+        a, h = n.body[0], n.handlers[0]
+        if not (isinstance(h.type, ast.Name) and h.type.id == 'KeyError' and h.name is None and len(h.body) == 1):
+            return None
+        b = h.body[0]
+        if not (isinstance(a, ast.Assign) and isinstance(b, ast.Assign) and len(a.targets) == 1 and len(b.targets) == 1):
+            return None
+        x, y = self.store_loc(a.targets[0], ctx), self.store_loc(b.targets[0], ctx)
+        ev = self.env_value(a.value, ctx)
+        if x and x == y and ev and ev[0] == 'load' and isinstance(b.value, ast.Constant) and b.value.value is None:
+            return [['save', x, ev[1]]]
+        return None
+
     def s_Try(self, n, ctx):
+        idiom = self.get_idiom(n, ctx)
+        if idiom is not None:
+            return idiom
         body = self.block(n.body, ctx)
         if n.handlers:
             hs = []
@@ -1133,6 +1692,277 @@ class Translator:
         out.append(['tryExcept', wid, rest(), ['skip']])
         out.append(['fault', self.newid('fault', n, ctx, exit=True)])
         return out
+
+
+class RestoreScan:
+    """Syntactic recognition of restore code, independent of whether the translation to the IR succeeded.
+
+    Restore context = the body of a `finally:`, the body of an `__exit__` method, the part of a @contextmanager
+    generator that runs after its `yield` (following statements, and the handlers / else / finally of a `try`
+    around the yield), and the body of a same-module function that touches os.environ and is called from restore
+    context.  In restore context the following are restore code (the fault injector never raises at their lines):
+      * a simple statement that writes os.environ (whatever its value expression is: evaluating the value being put
+        back belongs to the restore);
+      * a statement that only touches os.environ and local names (PURE: names, constants, os.environ[...] / its
+        methods, entries and views of local dicts, attributes of `self`, identity / equality / membership tests,
+        arithmetic, displays and comprehensions of these, list/tuple/dict/sorted/reversed/len/str of these, calls of same-module
+        helpers that touch os.environ with such arguments), including compound statements all of whose parts are PURE;
+      * the head (test / iterable) of an `if` / `for` / `while` that is not PURE as a whole, when the head is PURE -
+        its blocks are scanned statement by statement, so a collaborator call inside a `finally` (flist.close())
+        stays injectable.
+    Everywhere: all lines of a helper that syntactically only reads / writes os.environ and locals (PURE-ENV), and
+    the head of an `if` / `for` / `while` that is PURE as a whole and writes os.environ (an environment idiom such as
+    `for name in names: del os.environ[name]`: the head is revisited between two writes and cannot raise).
+    `lines` = set of (function name as in code.co_name, line number)."""
+
+    BUILTINS = ('dict', 'list', 'tuple', 'sorted', 'reversed', 'len', 'iter', 'str', 'bool', 'set', 'frozenset',
+                'zip', 'enumerate', 'isinstance')
+    METHODS = ('items', 'keys', 'values', 'get', 'copy') + tuple(STRMETH)
+
+    def __init__(self, tr):
+        self.tr = tr
+        self.lines = set()
+        self.why = {}
+        self.queued = []
+        self.done = set()
+        funcs = [(f, None) for f in tr.funcs.values()]
+        for c in tr.classes.values():
+            funcs += [(m, c) for m in c.body if isinstance(m, ast.FunctionDef)]
+        self.allfuncs = funcs
+        self.containers = {}
+        for fn, _ in funcs:
+            self.containers.setdefault(fn.name, set()).update(self.container_names(fn))
+        self.cur = None
+        self.queue_ok = False
+        for fn, cls in funcs:
+            # environment idiom in any context: an if / for / while that is PURE as a whole and writes os.environ -
+            # its head is visited between two environment writes and cannot raise
+            selfname = fn.args.args[0].arg if (cls is not None and fn.args.args) else None
+            for n in ast.walk(fn):
+                if isinstance(n, (ast.If, ast.For, ast.While)) and any(self.env_write(m) for m in ast.walk(n)):
+                    self.cur = self.owner(n, fn)
+                    if self.pure_stmt(n, selfname if self.cur == fn.name else None):
+                        self.mark(self.cur, n.lineno, (n.iter if isinstance(n, ast.For) else n.test).end_lineno,
+                                  'head of an environment idiom')
+        self.queue_ok = True
+        for fn, cls in funcs:
+            selfname = fn.args.args[0].arg if (cls is not None and fn.args.args) else None
+            if cls is None and tr.syntactic_pure_env(fn) and tr.mentions_environ(fn):
+                for s in body_of(fn):
+                    self.mark(fn.name, s.lineno, s.end_lineno, 'pure-env helper')
+            if cls is not None and fn.name == '__exit__':
+                self.block(fn.body, fn.name, selfname)
+            if tr.is_cm_generator(fn):
+                self.after_yield(fn)
+            for n in ast.walk(fn):
+                if isinstance(n, ast.Try) and n.finalbody:
+                    self.block(n.finalbody, self.owner(n, fn), selfname)
+        while self.queued:
+            fn = self.queued.pop()
+            if id(fn) in self.done:
+                continue
+            self.done.add(id(fn))
+            self.block(fn.body, fn.name, None)
+
+    def container_names(self, fn):
+        """locals that (may) hold a plain tuple / list / dict / string of saved values: parameters, and names assigned
+        from a display, a comprehension, dict()/list()/tuple()/sorted(), an os.environ read, a same-module helper"""
+        tr = self.tr
+        out = {a.arg for a in fn.args.posonlyargs + fn.args.args + fn.args.kwonlyargs}
+        for n in ast.walk(fn):
+            if isinstance(n, (ast.Assign, ast.AnnAssign)) and n.value is not None:
+                v = n.value
+                ok = isinstance(v, (ast.Dict, ast.DictComp, ast.List, ast.ListComp, ast.Tuple, ast.Constant)) or \
+                    tr.is_env_read_shape(v) or \
+                    (isinstance(v, ast.Call) and isinstance(v.func, ast.Name) and
+                     (v.func.id in ('dict', 'list', 'tuple', 'sorted') or v.func.id in tr.inlinable))
+                if ok:
+                    for t in (n.targets if isinstance(n, ast.Assign) else [n.target]):
+                        if isinstance(t, ast.Name):
+                            out.add(t.id)
+            elif isinstance(n, (ast.For, ast.comprehension)):
+                for t in ast.walk(n.target):
+                    if isinstance(t, ast.Name):
+                        out.add(t.id)
+        return out
+
+    def owner(self, node, default):
+        """name of the innermost function containing the node (the co_name of its LINE events)"""
+        p = self.tr.up.get(id(node))
+        while p is not None and not isinstance(p, (ast.FunctionDef, ast.AsyncFunctionDef)):
+            p = self.tr.up.get(id(p))
+        return p.name if p is not None else default.name
+
+    def mark(self, func, a, b, why):
+        for l in range(a, (b or a) + 1):
+            self.lines.add((func, l))
+            self.why.setdefault((func, l), why)
+
+    def after_yield(self, fn):
+        for y in ast.walk(fn):
+            if not (isinstance(y, ast.Expr) and isinstance(y.value, (ast.Yield, ast.YieldFrom))):
+                continue
+            child, p = y, self.tr.up.get(id(y))
+            while p is not None:
+                for fld in ('body', 'orelse', 'finalbody'):
+                    blk = getattr(p, fld, None)
+                    if isinstance(blk, list) and child in blk:
+                        self.block(blk[blk.index(child) + 1:], fn.name, None)
+                        if isinstance(p, ast.Try) and fld == 'body':
+                            for h in p.handlers:
+                                self.block(h.body, fn.name, None)
+                            self.block(p.orelse, fn.name, None)
+                            self.block(p.finalbody, fn.name, None)
+                if p is fn:
+                    break
+                child, p = p, self.tr.up.get(id(p))
+
+    # ---------------------------------------------------------------- purity
+    def pure(self, e, selfname):
+        tr = self.tr
+        if e is None or isinstance(e, (ast.Constant, ast.Name)) or tr.is_environ(e):
+            return True
+        P = lambda x: self.pure(x, selfname)
+        if isinstance(e, ast.Attribute):
+            return isinstance(e.value, ast.Name) and selfname is not None and e.value.id == selfname
+        if isinstance(e, ast.Subscript):
+            return (tr.is_environ(e.value) or
+                    (isinstance(e.value, ast.Name) and e.value.id in self.containers.get(self.cur, ())) or
+                    (isinstance(e.value, ast.Attribute) and P(e.value))) and P(e.slice)
+        if isinstance(e, ast.Call):
+            args = list(e.args) + [k.value for k in e.keywords]
+            if not all(P(a.value if isinstance(a, ast.Starred) else a) for a in args):
+                return False
+            f = e.func
+            if isinstance(f, ast.Attribute):
+                if tr.is_environ(f.value) or tr.is_os_call(e, ('getenv',)):
+                    return True
+                if f.attr not in self.METHODS:
+                    return False
+                if isinstance(f.value, ast.Name):
+                    return f.value.id in self.containers.get(self.cur, ())
+                return isinstance(f.value, ast.Constant) or (isinstance(f.value, ast.Attribute) and P(f.value))
+            if isinstance(f, ast.Name):
+                if f.id in tr.funcs and (f.id in tr.inlinable or tr.syntactic_pure_env(tr.funcs[f.id])):
+                    if not tr.is_cm_generator(tr.funcs[f.id]):
+                        if self.queue_ok:
+                            self.queued.append(tr.funcs[f.id])
+                        return True
+                return f.id in self.BUILTINS and f.id not in tr.funcs and f.id not in tr.classes
+            return False
+        if isinstance(e, ast.Compare):
+            return all(P(x) for x in [e.left] + list(e.comparators))
+        if isinstance(e, ast.BoolOp):
+            return all(P(x) for x in e.values)
+        if isinstance(e, ast.UnaryOp):
+            return P(e.operand)
+        if isinstance(e, ast.BinOp):
+            return P(e.left) and P(e.right)       # arithmetic / concatenation of locals and constants (k + 1)
+        if isinstance(e, ast.IfExp):
+            return P(e.test) and P(e.body) and P(e.orelse)
+        if isinstance(e, (ast.Tuple, ast.List, ast.Set)):
+            return all(P(x) for x in e.elts)
+        if isinstance(e, ast.Dict):
+            return all(P(x) for x in list(e.keys) + list(e.values))
+        if isinstance(e, ast.Starred):
+            return P(e.value)
+        if isinstance(e, ast.NamedExpr):
+            return P(e.value)
+        if isinstance(e, ast.JoinedStr):
+            return all(P(x) for x in e.values)
+        if isinstance(e, ast.FormattedValue):
+            return P(e.value) and P(e.format_spec)
+        if isinstance(e, (ast.ListComp, ast.SetComp, ast.GeneratorExp, ast.DictComp)):
+            parts = [e.key, e.value] if isinstance(e, ast.DictComp) else [e.elt]
+            for g in e.generators:
+                if g.is_async or not self.simple_target(g.target, selfname):
+                    return False
+                parts += [g.iter] + list(g.ifs)
+            return all(P(x) for x in parts)
+        return False
+
+    def simple_target(self, t, selfname):
+        if isinstance(t, ast.Name):
+            return True
+        if isinstance(t, (ast.Tuple, ast.List)):
+            return all(self.simple_target(x, selfname) for x in t.elts)
+        if isinstance(t, ast.Starred):
+            return self.simple_target(t.value, selfname)
+        if isinstance(t, (ast.Attribute, ast.Subscript)):
+            return self.pure(t, selfname)
+        return False
+
+    def env_write(self, s):
+        """a simple statement that writes os.environ"""
+        tr = self.tr
+        if isinstance(s, (ast.Assign, ast.AugAssign, ast.AnnAssign, ast.Delete)):
+            tg = s.targets if isinstance(s, (ast.Assign, ast.Delete)) else [s.target]
+            if any(isinstance(t, ast.Subscript) and tr.is_environ(t.value) for t in tg):
+                return True
+        v = getattr(s, 'value', None) if isinstance(s, (ast.Expr, ast.Assign, ast.AnnAssign)) else None
+        return isinstance(v, ast.Call) and isinstance(v.func, ast.Attribute) and tr.is_environ(v.func.value) \
+            and v.func.attr in MUTATORS
+
+    def pure_stmt(self, s, selfname):
+        P = lambda x: self.pure(x, selfname)
+        B = lambda b: all(self.pure_stmt(x, selfname) for x in b)
+        if isinstance(s, (ast.Pass, ast.Global, ast.Nonlocal, ast.Break, ast.Continue)):
+            return True
+        if self.env_write(s) and self.queue_ok:
+            return True                   # (restore context only: evaluating the value put back belongs to the restore)
+        if isinstance(s, ast.Expr):
+            return P(s.value)
+        if isinstance(s, ast.Assign):
+            return P(s.value) and all(self.simple_target(t, selfname) for t in s.targets)
+        if isinstance(s, ast.AnnAssign):
+            return P(s.value) and self.simple_target(s.target, selfname)
+        if isinstance(s, ast.AugAssign):
+            return P(s.value) and self.simple_target(s.target, selfname)
+        if isinstance(s, ast.Delete):
+            return all(self.simple_target(t, selfname) for t in s.targets)
+        if isinstance(s, ast.Return):
+            return P(s.value)
+        if isinstance(s, (ast.If, ast.While)):
+            return P(s.test) and B(s.body) and B(s.orelse)
+        if isinstance(s, ast.For):
+            return P(s.iter) and self.simple_target(s.target, selfname) and B(s.body) and B(s.orelse)
+        if isinstance(s, ast.Try):
+            return B(s.body) and B(s.orelse) and B(s.finalbody) and \
+                all((h.type is None or P(h.type)) and B(h.body) for h in s.handlers)
+        return False
+
+    # ---------------------------------------------------------------- marking
+    def block(self, stmts, func, selfname):
+        self.cur = func
+        for s in stmts:
+            if isinstance(s, (ast.FunctionDef, ast.AsyncFunctionDef, ast.ClassDef)):
+                continue
+            if self.pure_stmt(s, selfname):
+                self.mark(func, s.lineno, s.end_lineno, 'restore statement')
+                continue
+            if isinstance(s, (ast.If, ast.While)):
+                if self.pure(s.test, selfname):
+                    self.mark(func, s.lineno, s.test.end_lineno, 'head around restore code')
+                self.block(s.body, func, selfname)
+                self.block(s.orelse, func, selfname)
+            elif isinstance(s, ast.For):
+                if self.pure(s.iter, selfname) and self.simple_target(s.target, selfname):
+                    self.mark(func, s.lineno, s.iter.end_lineno, 'head around restore code')
+                self.block(s.body, func, selfname)
+                self.block(s.orelse, func, selfname)
+            elif isinstance(s, ast.Try):
+                self.block(s.body, func, selfname)
+                for h in s.handlers:
+                    self.block(h.body, func, selfname)
+                self.block(s.orelse, func, selfname)
+                self.block(s.finalbody, func, selfname)
+            elif isinstance(s, (ast.With, ast.AsyncWith)):
+                self.block(s.body, func, selfname)
+
+
+def restore_lines(tr):
+    """(function name, line) pairs at which the fault injector must never raise; see RestoreScan"""
+    return RestoreScan(tr).lines if tr is not None else set()
 
 
 def env_writer_census(pkg_root):
